@@ -1032,6 +1032,15 @@ def gen_plan(rng, sh, defs):
     return plan
 
 
+def gen_plan_ok(rng, sh, defs):
+    """every action succeeds and writes its targets (no other writes)"""
+    plan = {}
+    for t in range(sh.ntasks):
+        if defs[t]['targets']:
+            plan[str(t)] = {'ok': True, 'writes': [[p, 10 + t] for p in defs[t]['targets']], 'res': None}
+    return plan
+
+
 def gen_case(rng, parallel=False, informational=False):
     ntasks = rng.choice([1, 1, 1, 1, 2, 2, 2, 3, 3, 4])
     nsrc = rng.choice([1, 2, 2, 3])
@@ -1089,6 +1098,24 @@ def gen_case(rng, parallel=False, informational=False):
             ops.append(['reset-dep', [] if rng.random() < 0.35 else [rng.randrange(ntasks)]])
         elif k == 'checker':
             ops.append(['checker', rng.choice(CHECKERS)])
+    if common_src is not None and rng.random() < 0.5:
+        # records of tasks sharing a source diverge: everything is run, the shared source changes, only some tasks
+        # are refreshed (partial run / reset-dep / forget + partial run), then everything is run again (twice)
+        some = (list(range(rng.randint(1, ntasks - 1))) if rng.random() < 0.7
+                else sorted(rng.sample(range(ntasks), rng.randint(1, ntasks - 1))))
+        ops.append(['run', {'sel': None, 'always': False, 'cont': True, 'par': None, 'plan': gen_plan_ok(rng, sh, defs)}])
+        ops.append(rng.choice([['edit', common_src, rng.randrange(1, 8)], ['touch', common_src]]))
+        how = rng.random()
+        if how < 0.5:
+            ops.append(['run', {'sel': some, 'always': False, 'cont': True, 'par': None, 'plan': gen_plan_ok(rng, sh, defs)}])
+        elif how < 0.8:
+            ops.append(['reset-dep', some])
+        else:
+            ops.append(['forget', some])
+            ops.append(['run', {'sel': some, 'always': False, 'cont': True, 'par': None, 'plan': gen_plan_ok(rng, sh, defs)}])
+        for _ in range(2):
+            ops.append(['run', {'sel': None, 'always': False, 'cont': True, 'par': rng.choice(['process', 'thread']) if parallel and rng.random() < 0.3 else None,
+                                'plan': gen_plan_ok(rng, sh, defs)}])
     return {'backend': rng.choice(BACKENDS), 'checker': rng.choice(CHECKERS), 'ntasks': ntasks,
             'npaths': sh.npaths, 'ops': ops, 'scramble': rng.choice([0, rng.randrange(1, 90000), rng.randrange(1, 90000)])}
 
